@@ -635,7 +635,20 @@ func checkEmptyNode(p *core.Program, r *core.Report, tm *treeModel, eng *tf.Engi
 	} else if len(stores) == 0 {
 		// writes through builtins (copy) are not element stores
 		for _, e := range pev.Events() {
-			if e.Term.K == tf.KCall && e.Term.Name == "builtin.copy" {
+			if e.Term.K == tf.KCall && e.Term.Name == "builtin.copy" && len(e.Term.Args) == 2 {
+				// copy(out, table[:depth]) (or out[:depth]) writes exactly the depth lowest levels
+				dst, src := e.Term.Args[0], e.Term.Args[1]
+				depthT := tf.Field(pev.Params[0], tm.DepFieldE)
+				bounded := func(t *tf.Term, base *tf.Term) bool {
+					return t.K == tf.KSub && tf.Eq(t.Args[0], base) && (t.Args[1].K == tf.KNil || isConstInt(t.Args[1], 0)) && tf.Eq(t.Args[2], depthT)
+				}
+				tableT := tf.Field(pev.Params[0], tm.Table)
+				outT := pev.Params[2]
+				if on, inLoop := e.OnEveryPathToReturn(); on && !inLoop &&
+					((bounded(src, tableT) && (tf.Eq(dst, outT) || bounded(dst, outT))) || (tf.Eq(src, tableT) && bounded(dst, outT))) {
+					okP = true
+					continue
+				}
 				whyP = "the proof is produced by copy(out, table): it writes min(len(out), len(table)) entries — all " + "levels above this node are overwritten with empty-subtree hashes when the node sits below full ancestors"
 			}
 		}
